@@ -20,6 +20,25 @@ open EphVerif EphVerif.StorePipeline EphVerif.ReplicationGlue EphVerif.C11L
 theorem manifestTtl_eq_generated (c : Gen.C02.Cfg) (E wall : Int) :
     manifestTtl E wall c.min_manifest_ttl c.max_manifest_ttl = Gen.C02.manifest_ttl E c wall := rfl
 
+/-- an admitted manifest is granted at least one second -/
+theorem manifestTtl_pos {E now mn mx ttl : Int} (h : manifestTtl E now mn mx = some ttl) : 1 ≤ ttl := by
+  unfold manifestTtl enforceManifestTtl at h
+  by_cases h1 : E ≤ now
+  · rw [if_pos h1] at h; cases h
+  · rw [if_neg h1] at h
+    simp only at h
+    by_cases h2 : Int.tdiv (E - now) 1000000000 ≤ 0
+    · rw [if_pos h2] at h; cases h
+    · rw [if_neg h2] at h
+      by_cases h3 : Int.tdiv (E - now) 1000000000 < mn
+      · rw [if_pos h3] at h; cases h
+      · rw [if_neg h3] at h
+        by_cases h4 : (if Int.tdiv (E - now) 1000000000 > mx then mx else Int.tdiv (E - now) 1000000000) ≤ 0
+        · rw [if_pos h4] at h; cases h
+        · rw [if_neg h4] at h
+          simp only [Option.some.injEq] at h
+          omega
+
 /-- the node configuration C11 speaks of, read off the (sanitised) configuration C02/C03 speak of -/
 def cfgOf (c : Gen.C02.Cfg) (shardThreshold shardTotal : Nat) : Config :=
   { shardThreshold := shardThreshold, shardTotal := shardTotal, minTtl := c.min_manifest_ttl, maxTtl := c.max_manifest_ttl,
